@@ -93,7 +93,7 @@ class Hist:
                 return False
         for name, arr, snap in self.inputs:
             if not np.array_equal(arr, snap):
-                if not rows_pos_eq(arr, snap):
+                if not (rows_pos_eq(arr, snap) if name == "tan_vector" else O.rows_proj_eq(arr, snap, 1e-9)):
                     self.bad.append({"what": "caller_array_moved", "after": opname, "step": step, "array": name})
                     return False
         return True
@@ -185,18 +185,29 @@ class Hist:
             snap.append((np.array(o.proj_data), None if o.aux_data is None else np.array(o.aux_data)))
         return snap, [a.copy() for _, a, _ in self.inputs]
 
+    def same_geometry(self, new, old, tol=1e-9):
+        """the property: the represented geometry is unchanged.  Point rows may be rescaled by any non-zero scalar (the sheet of the
+        representative is not part of the point); a tangent vector's direction row (index 1 of the unit) only by a positive one."""
+        new, old = np.asarray(new), np.asarray(old)
+        if new.shape != old.shape:
+            return False
+        if self.kind == "tangent" and new.ndim >= 2 and new.shape[-2] == 2:
+            return O.rows_proj_eq(new[..., 0, :], old[..., 0, :], tol) and rows_pos_eq(new[..., 1, :], old[..., 1, :], tol)
+        return O.rows_proj_eq(new, old, tol)
+
     def unmoved(self, snap, q, step):
         osnap, isnap = snap
         for j, (o, (p0, a0)) in enumerate(zip(self.objs, osnap)):
-            if not rows_pos_eq(o.proj_data, p0):
+            if not self.same_geometry(o.proj_data, p0):
                 self.bad.append({"what": "query_moved_object", "query": q, "step": step, "object": j, "block": "proj",
-                                 "expected": "each stored row changes at most by a positive scalar"})
+                                 "expected": "stored rows unchanged as projective points (tangent directions: up to a positive scalar)"})
                 return False
-            if a0 is not None and not rows_pos_eq(o.aux_data, a0, 1e-7):
+            if a0 is not None and not self.same_geometry(o.aux_data, a0, 1e-7):
                 self.bad.append({"what": "query_moved_object", "query": q, "step": step, "object": j, "block": "aux"})
                 return False
         for (name, arr, _), a0 in zip(self.inputs, isnap):
-            if not rows_pos_eq(arr, a0):
+            ok = rows_pos_eq(arr, a0) if name == "tan_vector" else O.rows_proj_eq(arr, a0, 1e-9)
+            if not ok:
                 self.bad.append({"what": "query_moved_caller_array", "query": q, "step": step, "array": name})
                 return False
         return True
@@ -373,7 +384,7 @@ def run_pq(inp):
         if not O.allclose(klein_of(Pt.proj_data), k1, 1e-9) or not O.allclose(klein_of(Qt.proj_data), k2_0, 1e-9):
             bad.append({"what": "point_moved", "query": what})
             return False
-        if not np.array_equal(raw, raw0) and not rows_pos_eq(raw, raw0):
+        if not np.array_equal(raw, raw0) and not O.rows_proj_eq(raw, raw0, 1e-9):
             bad.append({"what": "caller_array_moved", "query": what, "array": "Point(raw)"})
             return False
         if not np.array_equal(k2, k2_0):
@@ -386,8 +397,8 @@ def run_pq(inp):
         for m in O.MODELS:
             p0 = np.array(Pt.proj_data)
             Pt.coords(m)
-            if not rows_pos_eq(Pt.proj_data, p0):
-                bad.append({"what": "coords_not_positive_rescale", "model": m})
+            if not O.rows_proj_eq(Pt.proj_data, p0, 1e-9):
+                bad.append({"what": "coords_moved_point", "model": m})
             if not same("coords:" + m):
                 break
         p0, q0 = np.array(Pt.proj_data), np.array(Qt.proj_data)
@@ -395,29 +406,29 @@ def run_pq(inp):
         Qt.distance(Pt)
         Pt.origin_to()
         Pt.unit_tangent_towards(Qt)
-        if not (rows_pos_eq(Pt.proj_data, p0) and rows_pos_eq(Qt.proj_data, q0)):
-            bad.append({"what": "query_not_positive_rescale", "query": "distance/origin_to/unit_tangent_towards"})
+        if not (O.rows_proj_eq(Pt.proj_data, p0, 1e-9) and O.rows_proj_eq(Qt.proj_data, q0, 1e-9)):
+            bad.append({"what": "query_moved_point", "query": "distance/origin_to/unit_tangent_towards"})
         same("distance/origin_to/unit_tangent_towards")
         # module-level functions on caller-supplied arrays
         arr = np.concatenate([np.ones(shape + (1,)), k1], axis=-1) * np.abs(sc)
         a0 = arr.copy()
         H.hyperboloid_coords(arr)
-        if not rows_pos_eq(arr, a0):
+        if not O.rows_proj_eq(arr, a0, 1e-9):
             bad.append({"what": "caller_array_moved", "query": "hyperbolic.hyperboloid_coords(array)"})
         H.kleinian_coords(arr)
-        if not rows_pos_eq(arr, a0):
+        if not O.rows_proj_eq(arr, a0, 1e-9):
             bad.append({"what": "caller_array_moved", "query": "hyperbolic.kleinian_coords(array)"})
         if shape == ():          # (spacelike_to / timelike_to read a 2-d array as ONE partial flag, not as a composite)
             v = g.normal(size=shape + (n + 1,))
             v[..., 0] = 0.5 * np.linalg.norm(v[..., 1:], axis=-1) * g.uniform(-1, 1, shape)
             v0 = v.copy()
             H.spacelike_to(v)
-            if not rows_pos_eq(v, v0):
+            if not O.rows_proj_eq(v, v0, 1e-9):
                 bad.append({"what": "caller_array_moved", "query": "hyperbolic.spacelike_to(array)"})
             t = arr.copy()
             t0 = t.copy()
             H.timelike_to(t)
-            if not rows_pos_eq(t, t0):
+            if not O.rows_proj_eq(t, t0, 1e-9):
                 bad.append({"what": "caller_array_moved", "query": "hyperbolic.timelike_to(array)"})
         # fixed points of an isometry: eig must not touch the matrix
         T = O.isometries(g, shape, 2)
@@ -655,9 +666,9 @@ def clauses():
                budget={"quick": 270, "thorough": 30000},
                what="histories over {copy, apply, reshape, flatten, index, set item, stack, combine, astype} on polygons, segments, tangent vectors of shapes (), (2,), (2,3) "
                     "interleaved with read-only queries (random depth <= 8 in quick; exhaustive depth <= 3 plus all depth-4 histories ending in a data-rewriting op in thorough): "
-                    "after each step every object ever produced has aux_data ~ fresh recomputation; around each query every stored row and caller array changes at most by a positive scalar"),
+                    "after each step every object ever produced has aux_data ~ fresh recomputation; around each query every stored row and every caller-supplied array is unchanged as a projective point (tangent directions: up to a positive scalar)"),
         Clause("point_queries", "oracle", gen_pq, run_pq, O.judge_bad, site="hyperbolic.Point.coords/distance/origin_to, hyperbolic.hyperboloid_coords/spacelike_to/timelike_to",
                budget={"quick": 150, "thorough": 3000},
                what="coordinates in every model, distance, origin_to, unit_tangent_towards, fixed points on composite points (either sign of the representative): Klein coordinates of "
-                    "the objects unchanged, stored rows rescaled positively only, caller-supplied arrays (constructor inputs, arguments of module-level functions) keep their points"),
+                    "the objects unchanged, stored rows unchanged projectively, caller-supplied arrays (constructor inputs, arguments of module-level functions) keep their points"),
     ]
